@@ -580,6 +580,111 @@ static std::vector<Prog> event_programs(bool thorough) {
   return ps;
 }
 
+// ------------------------------------------------------------------------------------------------
+// sequential histories: ONE worker thread (plus the finaliser), so the schedule is forced and no
+// exploration is needed; what varies is the history.  They reach container states the small scheduled
+// programs cannot (many queued entries, heap shapes): exhaustive over short priority patterns and
+// push/pushFront patterns, plus seeded random long histories.  Same model comparison, same oracle.
+// ------------------------------------------------------------------------------------------------
+static void run_history(Ctx &cx, Kind k, const std::string &id, const std::vector<Call> &script) {
+  Prog prog;
+  prog.kind = k;
+  prog.id = id;
+  prog.threads = {script, {C(FIN)}};
+  Holder h{&prog, nullptr};
+  vs::RunOptions o = run_opts(0);
+  o.max_steps = 4000;
+  vs::Result r = vs::run_replay(h.factory(), std::vector<vs::Choice>(), o);
+  g_pending_prog.clear();
+  finish(cx, prog, "seq", h.last, r);
+  cx.R->extra["sequential_histories"] += 1;
+}
+
+static void histories(Ctx &cx, vh::Rng &rng, bool th) {
+  // (a) priority variant: every sequence of <= 5 pushes over 5 distinct priorities (ties included when a
+  //     priority repeats), then pop everything; Push and PushFront alternate by position
+  const int pr[5] = {-2, 0, 1, 5, 10};
+  for (int len = 1; len <= 5 && cx.failures < 12; ++len) {
+    int total = 1;
+    for (int i = 0; i < len; ++i) total *= 5;
+    for (int code = 0; code < total && cx.failures < 12; ++code) {
+      std::vector<Call> sc;
+      int c = code;
+      for (int i = 0; i < len; ++i, c /= 5) sc.push_back(C((code + i) % 3 == 0 ? PUSHF : PUSH, i + 1, pr[c % 5]));
+      for (int i = 0; i < len; ++i) sc.push_back(C(POP));
+      run_history(cx, PRIO, "H-prio-all" + std::to_string(len), sc);
+    }
+  }
+  // (b) the same with pops in the middle: 5 (thorough: 6) pushes over 4 priorities, one Pop after the
+  //     k-th push, k = 2..len-1, the rest popped at the end
+  {
+    int len = th ? 6 : 5;
+    int total = 1;
+    for (int i = 0; i < len; ++i) total *= 4;
+    for (int code = 0; code < total && cx.failures < 12; ++code)
+      for (int k = 2; k < len; ++k) {
+        if (!th && (code + k) % 2) continue;  // quick: half of them
+        std::vector<Call> sc;
+        int c = code;
+        for (int i = 0; i < len; ++i, c /= 4) {
+          sc.push_back(C(PUSH, i + 1, pr[1 + c % 4]));
+          if (i + 1 == k) sc.push_back(C(POP));
+        }
+        for (int i = 0; i + 1 < len; ++i) sc.push_back(C(POP));
+        run_history(cx, PRIO, "H-prio-mid" + std::to_string(len), sc);
+      }
+  }
+  // (c) FIFO: every string over {Push, PushFront, Pop-if-non-empty} of length <= 7, then pop everything
+  for (int len = 1; len <= (th ? 8 : 7) && cx.failures < 12; ++len) {
+    int total = 1;
+    for (int i = 0; i < len; ++i) total *= 3;
+    for (int code = 0; code < total && cx.failures < 12; ++code) {
+      std::vector<Call> sc;
+      int c = code, queued = 0, v = 0;
+      bool skip = false;
+      for (int i = 0; i < len; ++i, c /= 3) {
+        int op = c % 3;
+        if (op == 2) {
+          if (!queued) { skip = true; break; }  // would block: covered by the scheduled programs
+          sc.push_back(C(POP));
+          --queued;
+        } else {
+          sc.push_back(C(op ? PUSHF : PUSH, ++v, 0));
+          ++queued;
+        }
+      }
+      if (skip) continue;
+      sc.push_back(C(SIZE));
+      for (int i = 0; i < queued; ++i) sc.push_back(C(POP));
+      run_history(cx, FIFO, "H-fifo-all" + std::to_string(len), sc);
+    }
+  }
+  // (d) seeded random long histories, both variants: 20-70 calls, up to ~30 queued entries, priorities
+  //     from a narrow (many ties) or a wide range, occasional Size
+  long nrand = th ? 1500 : 150;
+  for (long it = 0; it < nrand && cx.failures < 12; ++it) {
+    Kind k = it % 3 == 0 ? FIFO : PRIO;
+    int n = 20 + static_cast<int>(rng.below(51));
+    int range = rng.chance(1, 3) ? 3 : (rng.chance(1, 2) ? 8 : 1000);
+    unsigned pop_num = 2 + static_cast<unsigned>(rng.below(4));  // pop probability pop_num/8
+    std::vector<Call> sc;
+    int queued = 0, v = 0;
+    for (int i = 0; i < n; ++i) {
+      if (queued && (queued >= 30 || rng.chance(pop_num, 8))) {
+        sc.push_back(C(POP));
+        --queued;
+      } else if (rng.chance(1, 12)) {
+        sc.push_back(C(SIZE));
+      } else {
+        sc.push_back(C(rng.chance(1, 3) ? PUSHF : PUSH, ++v, static_cast<int>(rng.below(range)) - range / 2));
+        ++queued;
+      }
+    }
+    for (int i = 0; i < queued; ++i) sc.push_back(C(POP));
+    run_history(cx, k, k == FIFO ? "H-fifo-rand" : "H-prio-rand", sc);
+  }
+}
+
 int main(int argc, char **argv) {
   vh::Runner R;
   R.parse(argc, argv);
@@ -598,7 +703,9 @@ int main(int argc, char **argv) {
     auto flush = [&] {
       if (!have) return;
       Holder h{&prog, nullptr};
-      vs::Result r = vs::run_replay(h.factory(), choices, run_opts(nspur));
+      vs::RunOptions ro = run_opts(nspur);
+      ro.max_steps = 4000;
+      vs::Result r = vs::run_replay(h.factory(), choices, ro);
       g_pending_prog.clear();
       finish(cx, prog, "replay", h.last, r);
       have = false;
@@ -630,8 +737,10 @@ int main(int argc, char **argv) {
   for (auto &p : queue_programs(FIFO, th)) progs.push_back(p);
   for (auto &p : queue_programs(PRIO, th)) progs.push_back(p);
   vh::Rng rng(R.seed);
+  histories(cx, rng, th);
   long cap = th ? 6000 : 1200;
   for (auto &prog : progs) {
+    if (cx.failures >= 12) break;
     Holder h{&prog, nullptr};
     vs::Factory f = h.factory();
     // (1) all schedules with <= 2 (quick) / 3 (thorough) preemptions and <= 1 spurious wake-up
